@@ -172,6 +172,13 @@ func (c *updater) setAuthExternal(config ConfigValueGetter, auth *hatypes.AuthEx
 		if len(ssvc) == 2 {
 			namespace = ssvc[0]
 			name = ssvc[1]
+			if url.Source != nil && namespace != url.Source.Namespace && !c.options.DynamicConfig.CrossNamespaceServices {
+				// the backend of a service from another namespace might already
+				// exist, it cannot be used without permission
+				c.logger.Warn("skipping auth-url on %s: trying to read service '%s/%s' cross namespaces, but cross-namespace reading is disabled",
+					url.Source.String(), namespace, name)
+				return
+			}
 		} else if url.Source != nil {
 			namespace = url.Source.Namespace
 		}
